@@ -41,7 +41,7 @@ def hasType (lookup : Bytes → Option Nat) (nodeUuid : Nat → Bytes) : Ty → 
       ks.length == vs.length && decide (ks.length < 2 ^ 64) && pairwiseDistinct ks
   | .tuple ts, .tuple xs => hasTypeTuple lookup nodeUuid ts xs
   | .variant ts, .variant i v => decide (i < 2 ^ 64) && hasTypeNth lookup nodeUuid ts i v
-  | _, _ => false
+  | _, _ => false     -- in particular `.unknown` and `.badArity` have no values
 def hasTypeTuple (lookup : Bytes → Option Nat) (nodeUuid : Nat → Bytes) : List Ty → List Val → Bool
   | [], [] => true
   | t :: ts, x :: xs => hasType lookup nodeUuid t x && hasTypeTuple lookup nodeUuid ts xs
@@ -61,6 +61,7 @@ def noUnknown : Ty → Bool
   | .tuple ts => noUnknownList ts
   | .variant ts => noUnknownList ts
   | .unknown _ _ => false
+  | .badArity _ _ => false
 def noUnknownList : List Ty → Bool
   | [] => true
   | t :: ts => noUnknown t && noUnknownList ts
